@@ -213,9 +213,10 @@ class Block(_Extract):
     block is proved for every entry state satisfying the stated precondition.  Both anchors must
     occur exactly once in the function body (else LostAnchor -> exit 2)."""
 
-    def __init__(self, file, name, start, end, header, tail='', impl=None, exclusive=False, **kw):
+    def __init__(self, file, name, start, end, header, tail='', impl=None, exclusive=False, keep_start=False, **kw):
         super().__init__(file, **kw)
         self.exclusive = exclusive   # the anchors delimit the block but are not part of it
+        self.keep_start = keep_start  # with exclusive=True: the start anchor IS part of the block
         self.name = name
         self.impl = impl
         self.start_anchor = start
@@ -235,7 +236,11 @@ class Block(_Extract):
             raise LostAnchor('%s: block end `%s` not found after the block start' % (fn.name, self.end_anchor))
         b = a + rest.index(self.end_anchor) + len(self.end_anchor)
         if self.exclusive:
-            ls = a + len(self.start_anchor)
+            ls = a if self.keep_start else a + len(self.start_anchor)
+            if self.keep_start:
+                l0 = src.text.rfind('\n', 0, a) + 1
+                if not src.text[l0:a].strip():
+                    ls = l0
             b = a + rest.index(self.end_anchor, len(self.start_anchor))
             if b < ls:
                 raise LostAnchor('%s: block delimiters overlap' % fn.name)
